@@ -203,6 +203,14 @@ Definition child_sel (s : estate) (r : rval) (k : val) : res rval := child_sel_f
 
 Definition negate (r : rval) : rval := match r with RV (VBool b) => RV (VBool (negb b)) | _ => r end.
 
+(* the DEFUNC built-ins with a control effect *)
+Inductive dkind := DRetract | DComplete | DForget | DOther.
+Definition defunc_kind (f : string) : dkind :=
+  if String.eqb f "Retract" then DRetract
+  else if String.eqb f "Complete" then DComplete
+  else if String.eqb f "Forget" || String.eqb f "Changed" then DForget
+  else DOther.
+
 (* Expression.Evaluate on a binary node, apart from the recursive calls *)
 Definition bin_left_fail (o : op) (lres : res rval) : option (res rval) :=
   match o, lres with
@@ -303,12 +311,12 @@ with eval_atom (a : atom) (s : estate) {struct a} : res rval * estate :=
         match eval_args args s with
         | (Ok vs, s1) =>
             let vals := map (arg_val s1) vs in
-            match f, vals with
-            | "Retract"%string, [VStr n] => (Ok (RV VNil), add_fx s1 (FxRetract n))
-            | "Complete"%string, [] => (Ok (RV VNil), add_fx s1 FxComplete)
-            | "Forget"%string, [VStr n] | "Changed"%string, [VStr n] => (Ok (RV VNil), reset_name s1 n)
-            | "Retract"%string, _ | "Complete"%string, _ | "Forget"%string, _ | "Changed"%string, _ => (Panic, s1)
-            | _, _ => (defunc_value (es_facts s1) f vs, s1)
+            match defunc_kind f, vals with
+            | DRetract, [VStr n] => (Ok (RV VNil), add_fx s1 (FxRetract n))
+            | DComplete, [] => (Ok (RV VNil), add_fx s1 FxComplete)
+            | DForget, [VStr n] => (Ok (RV VNil), reset_name s1 n)
+            | DOther, _ => (defunc_value (es_facts s1) f vs, s1)
+            | _, _ => (Panic, s1)          (* reflect.Call with arguments of the wrong type or number *)
             end
         | (Err, s1) => (Err, s1)
         | (Panic, s1) => (Panic, s1)
@@ -435,12 +443,12 @@ Definition eval_atom_miss (a : atom) (s : estate) : res rval * estate :=
         match eval_args args s with
         | (Ok vs, s1) =>
             let vals := map (arg_val s1) vs in
-            match f, vals with
-            | "Retract"%string, [VStr n] => (Ok (RV VNil), add_fx s1 (FxRetract n))
-            | "Complete"%string, [] => (Ok (RV VNil), add_fx s1 FxComplete)
-            | "Forget"%string, [VStr n] | "Changed"%string, [VStr n] => (Ok (RV VNil), reset_name s1 n)
-            | "Retract"%string, _ | "Complete"%string, _ | "Forget"%string, _ | "Changed"%string, _ => (Panic, s1)
-            | _, _ => (defunc_value (es_facts s1) f vs, s1)
+            match defunc_kind f, vals with
+            | DRetract, [VStr n] => (Ok (RV VNil), add_fx s1 (FxRetract n))
+            | DComplete, [] => (Ok (RV VNil), add_fx s1 FxComplete)
+            | DForget, [VStr n] => (Ok (RV VNil), reset_name s1 n)
+            | DOther, _ => (defunc_value (es_facts s1) f vs, s1)
+            | _, _ => (Panic, s1)          (* reflect.Call with arguments of the wrong type or number *)
             end
         | (Err, s1) => (Err, s1)
         | (Panic, s1) => (Panic, s1)
@@ -534,31 +542,15 @@ Lemma eval_args_unfold : forall l s,
 Proof. intros [|e l'] s; reflexivity. Qed.
 
 (* ---- Variable.Assign ---- *)
-Definition assign_var (x : var) (newv : val) (s : estate) : res unit * estate :=
+(* where an assignment goes: resolved by evaluating the parent variable (and the selector) *)
+Inductive target := TTop (n : string) | TField (p : path) (n : string) | TIndex (p : path) (k : val).
+
+Definition assign_target (x : var) (s : estate) : res target * estate :=
   match x with
-  | VName n =>
-      (* dataContext.Add(name, value): the entry is replaced by the plain value *)
-      let s1 := with_facts s (aupdate n (FV newv) (es_facts s)) in
-      (Ok tt, reset_variable s1 x)
+  | VName n => (Ok (TTop n), s)
   | VMember x' n =>
       match eval_var x' s with
-      | (Ok (RRef p), s1) =>
-          match path_get (es_facts s1) p with
-          | Ok (FPtr None) => (Panic, s1)
-          | Ok obj =>
-              match step_get obj (SField n) with
-              | Ok dst =>
-                  match store_scalar dst newv with
-                  | Ok nv => match path_set (es_facts s1) (path_snoc p (SField n)) nv with
-                             | Some fx => (Ok tt, reset_variable (with_facts s1 fx) x)
-                             | None => (Err, s1)
-                             end
-                  | _ => (Err, s1)
-                  end
-              | _ => (Err, s1)
-              end
-          | Err => (Err, s1) | Panic => (Panic, s1)
-          end
+      | (Ok (RRef p), s1) => (Ok (TField p n), s1)
       | (Ok (RV _), s1) => (Err, s1)
       | (Err, s1) => (Err, s1)
       | (Panic, s1) => (Panic, s1)
@@ -567,44 +559,70 @@ Definition assign_var (x : var) (newv : val) (s : estate) : res unit * estate :=
       match eval_var x' s with
       | (Ok r, s1) =>
           match eval_expr sel s1 with
-          | (Ok k, s2) =>
-              match r with
-              | RRef p =>
-                  match path_get (es_facts s2) p, arg_val s2 k with
-                  | Ok (FSlice xs), VInt _ i =>
-                      match nth_z xs i with
-                      | Some dst =>
-                          match store_scalar dst newv with
-                          | Ok nv => match path_set (es_facts s2) (path_snoc p (SIndex i)) nv with
-                                     | Some fx => (Ok tt, reset_variable (with_facts s2 fx) x)
-                                     | None => (Err, s2)
-                                     end
-                          | _ => (Err, s2)
-                          end
-                      | None => (Err, s2)                     (* recovered index panic *)
-                      end
-                  | Ok (FSlice _), _ => (Panic, s2)
-                  | Ok (FMap kvs), VStr key =>
-                      match store_map_elem (field_get kvs key) (match kvs with (_, e) :: _ => Some e | [] => None end) newv with
-                      | Ok nv => match path_set (es_facts s2) (path_snoc p (SKey key)) nv with
-                                 | Some fx => (Ok tt, reset_variable (with_facts s2 fx) x)
-                                 | None => (Err, s2)
-                                 end
-                      | _ => (Err, s2)
-                      end
-                  | Ok (FMap _), _ => (Err, s2)               (* recovered SetMapIndex panic *)
-                  | Ok _, _ => (Err, s2)
-                  | Err, _ => (Err, s2)
-                  | Panic, _ => (Panic, s2)
-                  end
-              | RV _ => (Err, s2)
-              end
+          | (Ok k, s2) => match r with RRef p => (Ok (TIndex p (arg_val s2 k)), s2) | RV _ => (Err, s2) end
           | (Err, s2) => (Err, s2)
           | (Panic, s2) => (Panic, s2)
           end
       | (Err, s1) => (Err, s1)
       | (Panic, s1) => (Panic, s1)
       end
+  end.
+
+(* the store itself: a function of the facts only.
+   SetObjectValueByField / SetArrayValueAt / SetMapValueAt / DataContext.Add *)
+Definition write_target (fx : facts) (t : target) (newv : val) : res facts :=
+  match t with
+  | TTop n => Ok (aupdate n (FV newv) fx)       (* the entry is replaced by the plain value *)
+  | TField p n =>
+      match path_get fx p with
+      | Ok (FPtr None) => Panic
+      | Ok obj =>
+          match step_get obj (SField n) with
+          | Ok dst =>
+              match store_scalar dst newv with
+              | Ok nv => match path_set fx (path_snoc p (SField n)) nv with Some fx' => Ok fx' | None => Err end
+              | _ => Err
+              end
+          | _ => Err
+          end
+      | Err => Err
+      | Panic => Panic
+      end
+  | TIndex p k =>
+      match path_get fx p, k with
+      | Ok (FSlice xs), VInt _ i =>
+          match nth_z xs i with
+          | Some dst =>
+              match store_scalar dst newv with
+              | Ok nv => match path_set fx (path_snoc p (SIndex i)) nv with Some fx' => Ok fx' | None => Err end
+              | _ => Err
+              end
+          | None => Err                     (* recovered index panic *)
+          end
+      | Ok (FSlice _), _ => Panic
+      | Ok (FMap kvs), VStr key =>
+          match store_map_elem (field_get kvs key) (match kvs with (_, e) :: _ => Some e | [] => None end) newv with
+          | Ok nv => match path_set fx (path_snoc p (SKey key)) nv with Some fx' => Ok fx' | None => Err end
+          | _ => Err
+          end
+      | Ok (FMap _), _ => Err               (* recovered SetMapIndex panic *)
+      | Ok _, _ => Err
+      | Err, _ => Err
+      | Panic, _ => Panic
+      end
+  end.
+
+(* Variable.Assign: resolve, store, then forget what depends on the variable *)
+Definition assign_var (x : var) (newv : val) (s : estate) : res unit * estate :=
+  match assign_target x s with
+  | (Ok t, s1) =>
+      match write_target (es_facts s1) t newv with
+      | Ok fx' => (Ok tt, reset_variable (with_facts s1 fx') x)
+      | Err => (Err, s1)
+      | Panic => (Panic, s1)
+      end
+  | (Err, s1) => (Err, s1)
+  | (Panic, s1) => (Panic, s1)
   end.
 
 Definition asg_op (o : asg) : option (val -> val -> res val) :=
